@@ -41,7 +41,7 @@ def refVerdict (p : Program) : String :=
       s!"m rterr {l} obs={obs}"
     | .error .unc => "nopanic"
     | .error .mem => "any"     -- more memory than the machine has: excluded by the property
-    | .error .fuel => "any"
+    | .error .fuel => "nopanic"   -- the reference evaluation ran out of fuel: only "no crash" is demanded
 
 def runEval (line : String) : String :=
   -- `eval <hex> @@ <sexp>`
